@@ -165,21 +165,34 @@ def parse_diff(text):
 
 
 # ---------------------------------------------------------------- one request
-def stmt_range(src, line, outer=False):
-    """Lines of the smallest simple/compound statement covering `line` (parso, not jedi)."""
+def stmt_range(src, line, outer=False, col=0):
+    """Lines of the smallest simple/compound statement covering (line, col) (parso, not jedi).  With outer=True:
+    the enclosing top-level statement, and -- because a position in the whitespace between two statements
+    belongs to the prefix of the NEXT one while parso reports the previous leaf -- the union with the
+    statement of the following leaf."""
     import parso
     mod = parso.parse(src)
-    leaf = mod.get_leaf_for_position((line, 0), include_prefixes=True)
-    n = leaf
-    while n is not None and n.type not in ('simple_stmt', 'funcdef', 'classdef', 'if_stmt', 'for_stmt', 'while_stmt',
-                                           'try_stmt', 'with_stmt', 'decorated', 'file_input'):
-        n = n.parent
-    if n is None or n.type == 'file_input':
-        return line, line
-    if outer:
-        while n.parent is not None and n.parent.type != 'file_input':
+    leaf = mod.get_leaf_for_position((line, col), include_prefixes=True)
+
+    def rng(n):
+        while n is not None and n.type not in ('simple_stmt', 'funcdef', 'classdef', 'if_stmt', 'for_stmt', 'while_stmt',
+                                               'try_stmt', 'with_stmt', 'decorated', 'file_input'):
             n = n.parent
-    return n.start_pos[0], n.end_pos[0]
+        if n is None or n.type == 'file_input':
+            return line, line
+        if outer:
+            while n.parent is not None and n.parent.type != 'file_input':
+                n = n.parent
+        first = n.get_first_leaf()
+        start = first.start_pos[0] - first.prefix.count('\n')      # comments / blank lines before it travel with it
+        return start, n.end_pos[0]
+    a, b = rng(leaf)
+    if outer and leaf is not None:
+        nxt = leaf.get_next_leaf()
+        if nxt is not None:
+            a2, b2 = rng(nxt)
+            a, b = min(a, a2), max(b, b2)
+    return a, b
 
 
 def do_request(arg):
@@ -305,7 +318,7 @@ def do_request(arg):
             # statement may move; text outside it must stay
             a, b = stmt_range(orig, line, outer=kind.startswith('extract')) if 1 <= line <= len(ol) else (line, line)
             if until and kind.startswith('extract') and 1 <= until[0] <= len(ol):
-                b = max(b, stmt_range(orig, until[0], outer=True)[1])
+                b = max(b, stmt_range(orig, until[0], outer=True, col=until[1])[1])
             if kind == 'inline':
                 for rl in list(touched):
                     pass
